@@ -34,14 +34,30 @@ TOL = ["integrate::integrate", "integrate::gaussian::integrate_gaussian", "integ
 S = sym.S
 
 
-def guard_prefix_end(b):
-    """First top-level statement that is not an `if … { return Err(..) }` guard."""
+def guard_prefix_end(F, b):
+    """Where the main computation starts: the first top-level statement (or the tail expression) that — outside closure bodies — calls the
+    integrand or hands it (or a closure) to a crate function.  Everything before it is the guard prefix, whatever its shape (`if … return Err`,
+    a `match` on the conditions, a validation helper called with `?`)."""
+    def starts_computation(st):
+        if st.get("k") == "LetS" and peel(st.get("init") or {}).get("k") == "Closure":
+            return False                      # a closure *definition*: nothing is evaluated yet
+        e = st.get("e") if st.get("k") in ("ExprS", "Semi") else (st.get("init") if st.get("k") == "LetS" else st)
+        if isinstance(e, dict) and peel(e).get("k") in ("For", "While", "Loop"):
+            return True                       # guards do not loop
+        for x in walk(st):
+            if x.get("k") == "Call" and "ovl" in x:
+                return True
+            if x.get("k") == "Call" and (callee(x) or "") in getattr(F, "by_path", {}):
+                for a in x.get("args", []):
+                    ap = peel(a)
+                    ty = (ap.get("ty") or "").lstrip("&mut ")
+                    if ap.get("k") == "Closure" or "closure@" in ty or ty.startswith(("fn(", "impl Fn")) or (ap.get("k") == "Local" and ty in ("F", "G", "Fun")):
+                        return True
+        return False
     for st in b["body"]["stmts"]:
-        e = st.get("e") if st.get("k") in ("ExprS", "Semi") else None
-        if e is not None and e.get("k") == "If" and "e" not in e and any(x.get("k") == "Ret" for x in walk(e["t"])):
-            continue
-        return st
-    return None
+        if starts_computation(st):
+            return st
+    return b["body"].get("expr")
 
 
 def check_guards(F, run):
@@ -53,8 +69,8 @@ def check_guards(F, run):
             reqs.append(("left<right", lambda it: sp.Lt(S("left"), S("right"))))
         if path in TOL:
             reqs.append(("tol>=0", lambda it: sp.Ge(S("tol"), 0)))
-        stop = guard_prefix_end(b)
-        ps = guards.check_preconditions(F, run, "R9.1", b, path, reqs, stop_stmt=stop, floor=1)
+        stop = guard_prefix_end(F, b)
+        ps = guards.check_preconditions(F, run, "R9.1", b, path, reqs, stop_stmt=stop, floor=1, interp_cls=guards.SoftGInterp)
         for p in ps:
             run.check(not p.interp.calls, "R9.1", path, "no-evaluation-before-guards", F.loc(b), "the integrand is evaluated before the input is validated")
 
